@@ -318,6 +318,78 @@ def _is_leader_value(g, w):
     return False
 
 
+def _tally_resets(f, defs):
+    """blocks that overwrite RaftNode.votes_received as a whole (`*self.votes_received.write() = vec![..]`)"""
+    out = set()
+    gl = {g.local: g for g in A.guards(f, defs) if any(x.endswith('RaftNode.votes_received') for x in g.lock_fields)}
+    for i, b in enumerate(f.bbs):
+        if b['cleanup']:
+            continue
+        for st in b['s']:
+            if st[0][1] != ['*']:
+                continue
+            l = st[0][0]
+            for _ in range(6):
+                # whole-local definitions only (a store through the pointer is not a definition of the pointer)
+                ds = [x for x in defs.defs.get(l, []) if x[2] == 'call' or (x[2] == 'st' and not x[3][0][1])]
+                d = ds[0] if len(ds) == 1 else None
+                if d is None:
+                    break
+                if d[2] == 'call' and re.search(r'DerefMut>?::deref_mut$', d[3].generic + ' ' + d[3].resolved) and d[3].arg_local(0) is not None:
+                    l = d[3].arg_local(0)
+                elif d[2] == 'st' and d[3][1][0] == 'ref':
+                    l = d[3][1][1][0]
+                elif d[2] == 'st' and d[3][1][0] == 'use' and d[3][1][1][0] != 'k':
+                    l = d[3][1][1][1][0]
+                elif d[2] == 'call' and re.search(r'(RwLock|Mutex)::<.*>::(write|lock)$', d[3].resolved) and d[3].args and d[3].args[0][0] != 'k':
+                    fs, _ = A.origin_fields(f, d[3].args[0][1][0], defs)
+                    if any(x.endswith('RaftNode.votes_received') for x in A.place_fields(d[3].args[0][1]) + fs):
+                        out.add(i)
+                    break
+                else:
+                    break
+                if l in gl:
+                    out.add(i)
+                    break
+    return out
+
+
+def r01h(ctx, rep, cr):
+    rep.rule('R01h', 'every candidacy starts its tally from its own vote: in each RaftNode body that votes for itself in a new term (writes '
+                     'PersistentState.voted_for = Some(self.node_id)), every path from that write to a return passes a whole-value write of '
+                     'RaftNode.votes_received. A tally that survives into the next term counts votes granted for the old term towards the '
+                     'quorum of the new one, while those voters are free to vote for someone else: two leaders in one term')
+    n = 0
+    for name, f in sorted(cr.fns.items()):
+        if not name.startswith(RN):
+            continue
+        ws = []
+        defs = None
+        for w in A.field_writes(f):
+            if w[2] != PS + '.voted_for' or not w[4]:
+                continue
+            defs = defs or A.Defs(f)
+            ops = [o for o in A.rvalue_operands(w[4]) if o[0] != 'k']
+            sl = A.backward_slice(f, ops, defs) if ops else None
+            if sl is not None and any(x.endswith('RaftNode.node_id') for x in sl.fields):
+                ws.append(w)
+        if not ws:
+            continue
+        resets = _tally_resets(f, defs)
+        for k, w in enumerate(ws):
+            n += 1
+            rep.analysed(f)
+            R = A.reachable(f, [w[0]], cut_blocks=resets)
+            rets = [r for r in A.return_blocks(f) if r in R and r not in lib.failure_blocks(f)]
+            if rets:
+                rep.violation('R01h', f, 'tally-not-reset', f.loc(w[5]),
+                              'the node votes for itself in a new term and can return without overwriting votes_received: votes collected '
+                              'in an earlier term stay in the tally of the new one')
+            else:
+                rep.holds('R01h', f, 'self-vote#%d' % k, 'votes_received is overwritten on every path (%d reset site(s))' % len(resets))
+    rep.floor('R01h', 'self-vote sites', n, 2)
+
+
 def run(ctx, rep):
     cr = ctx.crate('tensor_chain')
     raft_rules.r01a(ctx, rep)
@@ -327,5 +399,6 @@ def run(ctx, rep):
     r01e(ctx, rep, cr)
     r01f(ctx, rep, cr)
     r01g(ctx, rep, cr)
+    r01h(ctx, rep, cr)
     if ctx.tier == 'thorough':
         witness.run(rep, 'R01a', ['RaftPersistentStateIsPrivate'])
